@@ -191,6 +191,30 @@ def witness_kf3(run):
     run.case(["witness", "KF-C13-3"], True, classes=["witness"])
 
 
+def fixed_shapes(run):
+    """Shapes every run includes: two files with the same base name in different directories,
+    both a whole number of pieces long (so pieces never straddle them), for every version."""
+    for version in (1, 2, 3):
+        for opts in ({}, {"align": True}) if version == 1 else ({},):
+            t = {"name": "tsame", "files": [("cd1/image.bin", "r1.32768"), ("cd2/image.bin", "r2.32768"),
+                                            ("cd2/notes", "r3.10")], "pl": 16384, "version": version,
+                 "single": False, "source": "own", "create_opts": dict(opts)}
+            case = {"fixed": "same-basename-on-boundaries", "version": version, "opts": opts}
+            with sandbox("c13f") as box:
+                metas = [rb.write_metafile(box, t, 0)]
+                s0 = os.path.join(box, "disk1")
+                write_tree(s0, [("x/" + p, cr.blob_from_token(tok).bytes()) for p, tok in t["files"]])
+                dest = os.path.join(box, "dest")
+                os.makedirs(dest)
+                try:
+                    count = impl.rebuild([metas[0][0]], [s0], dest)
+                except Exception as exc:
+                    run.fail("impl-vs-spec", case, {"raised": repr(exc)[:200]})
+                    continue
+                judge(run, case, [t], metas, dest, count)
+            run.case(["fixed", version, bool(opts)], True, sample=case, classes=["fixed-shape"])
+
+
 def run(tier, seed, replay=None):
     impl.use_repo()
     run = Run("C13", tier, seed, RULE)
@@ -201,6 +225,7 @@ def run(tier, seed, replay=None):
         guarded(run, {"witness": "KF-C13-1"}, witness_kf1, run)
         guarded(run, {"witness": "KF-C13-2"}, witness_kf2, run)
         guarded(run, {"witness": "KF-C13-3"}, witness_kf3, run)
+        guarded(run, {"fixed": "shapes"}, fixed_shapes, run)
         seeds = [] if replay else [run.rng.randrange(10 ** 9) for _ in range(70 if tier == "quick" else 700)]
     for s in seeds:
         guarded(run, {"case_seed": s}, run_case, run, drv, s, tier)
